@@ -403,6 +403,10 @@ def run(ctx) -> None:
             ctx.ob("RECON.rewrap", "FixedTimezone.convert/tzinfo", tz is not None and nun(tz) == "self",
                    f"tzinfo={nun(tz)}; a naive value converted by a fixed zone must be tagged with that zone", s.loc)
     ctx.count("recon_sites", len(sites))
+    from ..rules import units as U
+    U.partial_timedelta_reads(ctx, "UNITS.offset-delta", tzm, ["Timezone.convert", "Timezone.datetime", "FixedTimezone.convert", "FixedTimezone.datetime"],
+                              "the shift applied to a skipped wall time is the full difference of the two offsets")
+    ctx.expect_min("UNITS.offset-delta", 4)
     ctx.expect_min("ABSCASE.case", 12)
     ctx.expect_min("FUNNEL", 40)
     ctx.expect_min("RECON.slot", 14)
